@@ -3,6 +3,7 @@ C02 — sum tensors: `innerprod`, `mttkrp`, `ttv` map the operation over the par
 definitions (`Spec.*`) are linear in the operand, so the result is the operation on the cell-wise sum.
 -/
 import PyttbModel.Lemmas.MLTuckerOps
+import PyttbModel.Lemmas.MLTuckerSparse
 namespace Pyttb
 namespace MLK
 
@@ -577,16 +578,9 @@ theorem kruskalVia_spec' [CommSemiring α] [DecidableEq α] (K : Ktensor α) (ot
   rw [kruskalVia_spec K other ho hs]
   exact congrArg _ (spec_inner_comm _ _ hs)
 
-/-- Pairs of parts whose inner product is proved on every branch (Tucker · sparse only through
-`full()`; the other branch goes through the sparse `ttm`). -/
-def InnerOk : ML.Part α → ML.Part α → Prop
-  | .sparse _, .tucker t => numel t.shape < numel t.core.shape
-  | .tucker t, .sparse _ => numel t.shape < numel t.core.shape
-  | _, _ => True
-
 /-- **`x.innerprod(y)` across representations** is `Σ_k ⟦x⟧[k]·⟦y⟧[k]`. -/
 theorem part_innerprod_spec [CommSemiring α] [DecidableEq α] (x y : ML.Part α) (hx : PartWF x) (hy : PartWF y)
-    (hs : x.shape = y.shape) (hok : InnerOk x y) :
+    (hs : x.shape = y.shape) :
     x.innerprod y = .ok (Spec.inner (partDen x) (partDen y)) := by
   cases x with
   | dense a =>
@@ -614,7 +608,7 @@ theorem part_innerprod_spec [CommSemiring α] [DecidableEq α] (x y : ML.Part α
       exact congrArg _ (spec_inner_comm _ _ hs.symm)
     | tucker b =>
       show b.innerprodSparse a = _
-      rw [tucker_innerprodSparse_full b hy.1 hy.2 a hx hs.symm hok]
+      rw [tucker_innerprodSparse_spec b hy.1 hy.2 a hx hs.symm]
       exact congrArg _ (spec_inner_comm _ _ hs.symm)
   | kruskal a =>
     cases y with
@@ -625,7 +619,7 @@ theorem part_innerprod_spec [CommSemiring α] [DecidableEq α] (x y : ML.Part α
   | tucker a =>
     cases y with
     | dense b => exact tucker_innerprodDense_spec a hx.1 hx.2 b hy hs
-    | sparse b => exact tucker_innerprodSparse_full a hx.1 hx.2 b hy hs hok
+    | sparse b => exact tucker_innerprodSparse_spec a hx.1 hx.2 b hy hs
     | kruskal b =>
       show ML.Part.kruskalVia b (.tucker a) = _
       rw [kruskalVia_spec b (.tucker a) hx hs.symm]
@@ -768,11 +762,11 @@ theorem part_mttkrp_list [CommSemiring α] [DecidableEq α] (p : ML.Part α) (hp
 /-- **`sumtensor.innerprod(other)`** for well-formed parts of one shape. -/
 theorem sum_innerprod_full [CommSemiring α] [DecidableEq α] (p0 : ML.Part α) (ps : List (ML.Part α)) (o : ML.Part α)
     (hwf : ∀ p ∈ p0 :: ps, PartWF p) (ho : PartWF o) (hsh : ∀ p ∈ ps, p.shape = p0.shape)
-    (hso : p0.shape = o.shape) (hok : ∀ p ∈ p0 :: ps, InnerOk p o) :
+    (hso : p0.shape = o.shape) :
     ML.Sumtensor.innerprod (p0 :: ps) o = .ok (Spec.inner (sumDen p0.shape (p0 :: ps)) (partDen o)) := by
   apply sum_innerprod_spec p0 ps o hsh
   intro p hp
-  apply part_innerprod_spec p o (hwf p hp) ho ?_ (hok p hp)
+  apply part_innerprod_spec p o (hwf p hp) ho ?_
   rcases List.mem_cons.1 hp with rfl | h
   · exact hso
   · rw [hsh p h]; exact hso
